@@ -9,6 +9,7 @@ from ..core import FUNC, call_attr, calls_in, const, dotted, is_const, kwarg, no
 from .c01 import _fmt_in
 
 EXPLANATION = [
+    "C02.reset-first: in the server transports' new-client hooks only log calls and plain assignments precede parser.reset() (nothing that can raise: the event loop would log the failure and keep feeding a parser that was not reset).",
     'C02.external-reset: outside PacketParser itself, parser.reset() is called only where a server transport accepts a new client (connection_made / on_connection): no per-message reset.',
     'C02.delivery-order: no transport function that hands packets to a sink sorts, reverses or otherwise reorders them.',
     'C02.message-size: no websocket transport passes the websockets library a max_size below 65540 (type byte + 4-byte header + 0xFFFF data bytes): a maximum-length packet is never rejected by the carrier.',
@@ -422,7 +423,39 @@ def external_reset(ctx):
     R.check(n >= 3, rule, 'bumble.transport | parser resets from outside', f'{n} sites, all on accepting a client', f'only {n} sites found')
 
 
+def reset_first(ctx):
+    """In a server transport's new-client hook nothing that can fail stands before the parser reset: asyncio only logs an
+    exception raised by connection_made() and goes on delivering the client's bytes - to a parser that still holds the
+    previous client's partial packet.  Allowed before the reset: log calls and plain single-target assignments of names,
+    attributes and get_extra_info() results (no destructuring, indexing or other calls)."""
+    R, p = ctx.r, ctx.p
+    rule = 'C02.reset-first'
+    n = 0
+
+    def harmless(st):
+        if isinstance(st, ast.Expr) and isinstance(st.value, ast.Constant):
+            return True
+        if isinstance(st, ast.Expr) and isinstance(st.value, ast.Call) and (dotted(st.value.func) or '').startswith('logger.'):
+            return not any(isinstance(x, (ast.Subscript, ast.Call)) and x is not st.value for a in list(st.value.args) for x in ast.walk(a) if not isinstance(x, ast.JoinedStr))
+        if isinstance(st, ast.Assign) and len(st.targets) == 1 and isinstance(st.targets[0], (ast.Name, ast.Attribute)):
+            v = st.value
+            return isinstance(v, (ast.Name, ast.Attribute, ast.Constant)) or (isinstance(v, ast.Call) and call_attr(v) == 'get_extra_info')
+        return False
+    for mn, m in sorted(p.modules.items()):
+        if not mn.startswith('bumble.transport'):
+            continue
+        for fn in [x for x in ast.walk(m.tree) if isinstance(x, FUNC)]:
+            idx = next((i for i, st in enumerate(fn.body) if any(call_attr(c) == 'reset' and (dotted(c.func.value) or '').endswith('parser') for c in calls_in(st))), None)
+            if idx is None or fn.name not in ('connection_made', 'on_connection'):
+                continue
+            n += 1
+            risky = [st for st in fn.body[:idx] if not harmless(st)]
+            R.check(not risky, rule, p.qual_of(fn), 'nothing that can raise before the reset', f'`{norm(risky[0])[:70] if risky else ""}` can raise before the parser is reset (a destructuring, an index, a call): the event loop logs the exception of the hook and keeps feeding the new client\'s bytes to a parser that still holds the previous client\'s partial packet', f'{m.rel}:{(risky[0] if risky else fn).lineno}')
+    R.check(n >= 3, rule, 'bumble.transport | new-client hooks that reset the parser', f'{n}', f'only {n} found')
+
+
 RULES = [
+    ('C02.reset-first', reset_first),
     ('C02.external-reset', external_reset),
     ('C02.delivery-order', delivery_order),
     ('C02.message-size', message_size),
